@@ -49,6 +49,10 @@ func main() {
 	extra := flag.String("extra", "", "comma separated extra overlay mappings virtual=real")
 	flag.Parse()
 
+	os.Setenv("PATH", "/opt/veriftools/go1.26.8/bin:"+os.Getenv("PATH"))
+	os.Setenv("GOTOOLCHAIN", "local")
+	os.Setenv("GOFLAGS", "-mod=mod")
+	os.Setenv("GOPROXY", "off")
 	start := time.Now()
 	overlay := map[string][]byte{}
 	api, err := os.ReadFile(*apiFile)
